@@ -398,7 +398,7 @@ func genConc(t *rapid.T, withSched bool) ConcCase {
 		c.Setup = append(append([]MOp{}, setupRecipes[r]...), c.Setup...)
 	}
 	if rapid.IntRange(0, 7).Draw(t, "bulk?") == 0 {
-		c.Bulk = rapid.SampledFrom([]int{33, 34, 40, 70}).Draw(t, "bulk")
+		c.Bulk = rapid.SampledFrom([]int{33, 34, 40, 70, 70, 130, 300}).Draw(t, "bulk")
 		c.BulkPromote = rapid.IntRange(0, 3).Draw(t, "bulkpromote") != 0
 	}
 	nth := rapid.SampledFrom([]int{2, 2, 2, 3, 3, 4}).Draw(t, "threads")
@@ -434,7 +434,7 @@ var specSched = pbt.Register(&pbt.Spec[ConcCase]{
 	Property: "C04", Name: "C04.sched",
 	Rule: "E3 controlled scheduler: case = sequential setup (0..12 ops over keys 0..3 incl. Range, chooses the internal layout) + 2..4 threads x 1..3 ops over 1..3 keys " +
 		"(optionally Range) + schedule (<=90 choices; 0 = keep running, k = switch to k-th other enabled thread) driving the real code hook by hook; " +
-		"in one case of eight 33..70 extra keys are stored (and usually promoted) first and thread ops also address some of them (size-dependent paths); oracle = per-key linearizability of the recorded history (Wing-Gong) incl. a quiescent postlude (Load of every key, full Range, Load of every key again after that promotion), three-clause Range rule, no deadlock, no panic; " +
+		"in one case of eight 33..300 extra keys are stored (and usually promoted) first and thread ops also address some of them (size-dependent paths); oracle = per-key linearizability of the recorded history (Wing-Gong) incl. a quiescent postlude (Load of every key, full Range, Load of every key again after that promotion), three-clause Range rule, no deadlock, no panic; " +
 		"non-trivial = two calls on one key (at least one mutator) from different threads overlap AND >=1 preemption at a library-internal hook",
 	Gen: func(t *rapid.T) ConcCase { return genConc(t, true) },
 	Run: RunSched, Quick: 12000, Thorough: 120000,
